@@ -480,6 +480,8 @@ def check_sibling(ctx, setup, s1, lip, s2):
     cl = s1['cl']
     grp = [c for s in s1['body'] for c in calls_in(s) if isinstance(c.func, ast.Attribute) and c.func.attr == 'append'
            and U(c.func.value).replace(' ', '') == 'self.groups[%s]' % cl]
+    if not grp and any('self.groups[%s]' % cl in U(n).replace(' ', '') for s in s1['body'] for n in ast.walk(s) if isinstance(n, ast.Call)):
+        raise AnalysisError('%s: the measurement is attached to self.groups[%s] in a way this analysis does not recognise (not a plain append)' % (setup.qualname, cl))
     ctx.ob('exactly-once', setup, grp[0] if grp else s1['inner'], len(grp) == 1,
            'the matched clique `%s` receives the measurement: self.groups[%s].append(<measurement>)' % (cl, cl))
     if grp:
